@@ -134,3 +134,17 @@ func verifHeaderEqual(tag string, got, want *Header, m *verifExtModel) {
 		verifAssert(tag+".ext-val-inorder", verifEqBytes(got.Extensions[i].payload, m.vals[i]))
 	}
 }
+
+// verifFiller returns n bytes of a fixed pattern with symbolic first and last
+// bytes: bulk data that only travels through slicing and copy.
+func verifFiller(name string, n int) []byte {
+	b := make([]byte, n)
+	for i := range b {
+		b[i] = uint8(i*131 + i>>8*29 + 1)
+	}
+	if n > 0 {
+		b[0] = verifU8(name + ".first")
+		b[n-1] = verifU8(name + ".last")
+	}
+	return b
+}
